@@ -39,7 +39,7 @@ func c07SeqJob(tier string) *SeqJob {
 		return func(hist []int) (cl, det, key string, steps int) {
 			cl, det = guard(func() (string, string) {
 				rec := &Recorder{NoPoints: true}
-				o := scopeOpts(rec, cached, false)
+				o := scopeOpts(rec, cached, true) // a reporter that can be closed: only the root's Close may close it
 				o.SanitizeOptions = &so
 				root, _ := tally.VerifNewRootScope(o, 0, shards)
 				type obj struct {
@@ -186,6 +186,11 @@ func c07SeqJob(tier string) *SeqJob {
 				key = fmt.Sprint(cached, shards, ks, want, childWant > 0, life)
 				tally.VerifReportOnce(root)
 				tally.VerifReportOnce(root)
+				for i, e := range rec.Log {
+					if e.Kind == "close" {
+						return "subscope-close-closed-the-reporter", fmt.Sprintf("%v: log[%d]: the reporter - shared by every scope of the root - was closed although only subscopes were closed", histLabels(alphabet, hist), i)
+					}
+				}
 				got := sumCounters(rec.Log, 0, len(rec.Log))
 				ids := map[string]bool{}
 				for id := range want {
